@@ -393,7 +393,7 @@ class Body:
         d, partial = self.defs()
         if depth < 40 and (not user or inline_user):
             sd = self.single_def(l)
-            if sd is not None and (not user or partial.get(l, 0) == 0):
+            if sd is not None and (not user or partial.get(l, 0) == 0 or inline_user == 'force'):
                 seen = seen or frozenset()
                 if l not in seen:
                     seen2 = seen | {l}
